@@ -6,7 +6,7 @@ CONSTANTS
   ReReadKeys <- MC_ReRead
   InsertNewTagStoresChars = TRUE
   NonAtomicRead = FALSE
-  QReadBindsDbFirst = FALSE
+  NonAtomicQread = FALSE
   ShallowCopy = FALSE
   SrcSteps = 0
   Emit = FALSE
